@@ -189,6 +189,31 @@ func init() {
 		}
 		return args[0], true
 	}
+	ffiModels["strings.TrimLeft"] = func(i *interpreter, fr *frame, args []value) (value, bool) {
+		if !anySymbolic(args) {
+			return nil, false
+		}
+		cut, ok := args[1].(string)
+		if !ok {
+			panic(pathAbort{abortUnsupported, "TrimLeft with symbolic cutset"})
+		}
+		rs := runesOf(args[0])
+		k := 0
+		for k < len(rs) {
+			in := false
+			for _, c := range cut {
+				if i.decide(equalsV(i, types.Typ[types.Int32], rs[k], c)) {
+					in = true
+					break
+				}
+			}
+			if !in {
+				break
+			}
+			k++
+		}
+		return mkStr(rs[k:]), true
+	}
 	ffiModels["strings.Compare"] = func(i *interpreter, fr *frame, args []value) (value, bool) {
 		if !anySymbolic(args) {
 			return nil, false
